@@ -356,14 +356,14 @@ fn reconfiguration(ctx: &mut Ctx) {
 pub fn run(ctx: &mut Ctx) {
     alloc::REFUSE_ABOVE.store(256 << 20, std::sync::atomic::Ordering::Relaxed);
     let quick = ctx.quick();
-    ctx.meta("rule", "cases: header-only streams: an element of every type (U, I, F, S, B, master, global Void, unknown id) at root, inside a small known-size master, inside a known-size master with room, inside an unknown-size master, declaring S in {0,1,M-1,M,M+1,2M,2^20,2^30,2^40,2^56-2} in every VINT width that can hold it, payload absent / 3 bytes present / followed by a 200 KB tail, x limit M in {5,16,1000,2^20,default} x capacity {16,4096,default} x 8 tolerance subsets; a counting global allocator measures peak heap growth around the whole iteration. Oracle: S > M => a CorruptedFileData error (the size error unless an earlier-ordered check fires) with nothing emitted for the element, peak growth <= growth of the same stream with S:=0 plus 4 KiB (independent of S), bytes pulled from the source <= buffer capacity + header; S <= M with the payload missing => growth <= 8*max(S,capacity)+64 KiB; never a panic. Long streams of 10-30 thousand elements of varying small sizes: the largest slice ever offered to read() <= 4*max(capacity, largest payload). Call histories over a source that delivers its data in two stages with a stall (Ok(0) or a read error) in between: stage 1 = nothing / an element / an open master / masters whose declared size is too small for their content, then junk; next() until the error, try_recover() (which fails at the end of the available data, or succeeds), resume, stage 2 = 0 or 2 junk bytes and an element declaring S in {1001, 2^26, 2^40} > M: peak growth <= 8*max(M,capacity)+64 KiB over the whole history, the element is never emitted. Reconfiguration: a known-size (roomy) or unknown-size master opened under the default / no / a 1 GiB limit, then set_max_allowable_tag_size(Some(M)) between two next() calls, then a child declaring S in {M+1, 2^26}: rejected with a corruption error, never emitted, growth bounded by the NEW limit. A single allocation request above 256 MiB aborts the worker and is reported. Non-trivial: S > capacity.");
+    ctx.meta("rule", "cases: header-only streams: an element of every type (U, I, F, S, B, master, global Void, unknown id) at root, inside a small known-size master, inside a known-size master with room, inside an unknown-size master, declaring S in {0,1,M-1,M,M+1,2M,2^20,2^30,2^40,2^56-2} in every VINT width that can hold it, payload absent / 3 bytes present / followed by a 200 KB tail, x limit M in {0,1,5,16,1000,2^20,default} x capacity {16,4096,default} x 8 tolerance subsets; a counting global allocator measures peak heap growth around the whole iteration. Oracle: S > M => a CorruptedFileData error (the size error unless an earlier-ordered check fires) with nothing emitted for the element, peak growth <= growth of the same stream with S:=0 plus 4 KiB (independent of S), bytes pulled from the source <= buffer capacity + header; S <= M with the payload missing => growth <= 8*max(S,capacity)+64 KiB; never a panic. Long streams of 10-30 thousand elements of varying small sizes: the largest slice ever offered to read() <= 4*max(capacity, largest payload). Call histories over a source that delivers its data in two stages with a stall (Ok(0) or a read error) in between: stage 1 = nothing / an element / an open master / masters whose declared size is too small for their content, then junk; next() until the error, try_recover() (which fails at the end of the available data, or succeeds), resume, stage 2 = 0 or 2 junk bytes and an element declaring S in {1001, 2^26, 2^40} > M: peak growth <= 8*max(M,capacity)+64 KiB over the whole history, the element is never emitted. Reconfiguration: a known-size (roomy) or unknown-size master opened under the default / no / a 1 GiB limit, then set_max_allowable_tag_size(Some(M)) between two next() calls, then a child declaring S in {M+1, 2^26}: rejected with a corruption error, never emitted, growth bounded by the NEW limit. A single allocation request above 256 MiB aborts the worker and is reported. Non-trivial: S > capacity.");
     ctx.meta("bounds", "sizes, widths, limits, capacities and contexts as listed; within-limit sizes above 2^20 are not executed (they would really allocate)");
     ctx.meta("assumptions", "no buffered masters (the statement excludes them) || allocator accounting counts requested bytes, not allocator overhead");
     for c in ["over_limit_cases", "within_limit_payload_missing", "over_limit_with_tail", "long_streams", "histories_with_recovery_and_stalls", "histories_with_a_failed_recovery_before_the_oversized_element", "histories_ending_in_the_size_error", "size_error_after_a_failed_recovery", "limit_lowered_between_calls"] {
         ctx.expect_nonzero(c);
     }
     let ids: Vec<(u64, &str)> = vec![(ID_U, "U"), (ID_I, "I"), (ID_F, "F"), (ID_S, "S"), (ID_B, "B"), (ID_M, "M(master)"), (ID_VOID, "Void"), (0xf2, "unknown-id")];
-    let limits: Vec<(MaxSize, u64)> = vec![(MaxSize::Limit(5), 5), (MaxSize::Limit(16), 16), (MaxSize::Limit(1000), 1000), (MaxSize::Limit(1 << 20), 1 << 20), (MaxSize::Default, 4_000_000_000)];
+    let limits: Vec<(MaxSize, u64)> = vec![(MaxSize::Limit(0), 0), (MaxSize::Limit(1), 1), (MaxSize::Limit(5), 5), (MaxSize::Limit(16), 16), (MaxSize::Limit(1000), 1000), (MaxSize::Limit(1 << 20), 1 << 20), (MaxSize::Default, 4_000_000_000)];
     let caps: Vec<Option<usize>> = vec![Some(16), Some(4096), None];
     let contexts = [Context::Root, Context::InKnownSmall, Context::InKnownRoomy, Context::InUnknown];
     // long streams of elements well below the limit: the buffer (observed through the largest slice offered to
@@ -416,7 +416,7 @@ pub fn run(ctx: &mut Ctx) {
     reconfiguration(ctx);
     let mut case_no = 0u64;
     for (lim, m) in &limits {
-        let mut sizes: Vec<u64> = vec![0, 1, m - 1, *m, m + 1, 2 * m, 1 << 20, 1 << 30, 1 << 40, (1 << 56) - 2];
+        let mut sizes: Vec<u64> = vec![0, 1, m.saturating_sub(1), *m, m + 1, 2 * m, 2 * m + 2, 1 << 20, 1 << 30, 1 << 40, (1 << 56) - 2];
         if *lim == MaxSize::Default {
             sizes = vec![0, 1, 16, m + 1, 2 * m, 1 << 40, (1 << 56) - 2];
         }
